@@ -1297,8 +1297,8 @@ Section DidAccept.
     proof_ok doc data seq vmid sig /\ n = (seq + 1)%N.
   Proof using Type.
     split; [apply verify_ownership_ok|].
-    intros [(vm & pk & Hvm & Ht & Hk & Hv) ->]. unfold verify_ownership.
-    rewrite Hvm, Ht. cbn [negb]. rewrite Hk, Hv. reflexivity.
+    intros [(Hm & vm & pk & Hvm & Ht & Hk & Hv) ->]. unfold verify_ownership.
+    rewrite Hvm, Ht. cbn [negb]. rewrite Hk, Hv. apply N.eqb_neq in Hm. rewrite Hm. reflexivity.
   Qed.
 
   (** which error a failed check gives *)
@@ -1312,7 +1312,8 @@ Section DidAccept.
     destruct (es256k (vm_type vm)) eqn:Ht; cbn [negb]; [|exists 15%N; auto].
     destruct (b58key (vm_pubkey58 vm)) as [pk|] eqn:Hk; [|exists 10%N; auto].
     destruct (verify pk (signbytes (marshal_doc data) seq) sig) eqn:Hv; [|exists 9%N; auto 6].
-    exfalso. apply Hn. exists vm, pk. auto.
+    destruct (seq =? max_seq)%N eqn:Em; cbn [andb negb]; [exists 9%N; auto 6|].
+    exfalso. apply Hn. split; [apply N.eqb_neq; exact Em|]. exists vm, pk. auto.
   Qed.
 
   (** CreateDID: iff nothing (live or deactivated) is registered under the DID and the new document
@@ -1374,7 +1375,7 @@ Section DidAccept.
       unfold verify_ownership in V. destruct (vm_from doc (doc_auth doc) vmid) as [vm|]; [|inversion V; subst; discriminate H].
       destruct (negb (es256k (vm_type vm))); [inversion V; subst; discriminate H|].
       destruct (b58key (vm_pubkey58 vm)); [|inversion V; subst; discriminate H].
-      destruct (verify _ _ sig); inversion V; subst; discriminate H.
+      destruct (verify _ _ sig && _); inversion V; subst; discriminate H.
     - destruct (entry_deactivated (get_entry st did)).
       + split; [discriminate | intros (s & n & H); discriminate H].
       + split; [intros _ | reflexivity].
@@ -1392,7 +1393,7 @@ Section DidAccept.
       unfold verify_ownership in V. destruct (vm_from doc (doc_auth doc) vmid) as [vm|]; [|inversion V; subst; discriminate H].
       destruct (negb (es256k (vm_type vm))); [inversion V; subst; discriminate H|].
       destruct (b58key (vm_pubkey58 vm)); [|inversion V; subst; discriminate H].
-      destruct (verify _ _ sig); inversion V; subst; discriminate H.
+      destruct (verify _ _ sig && _); inversion V; subst; discriminate H.
     - destruct (entry_deactivated (get_entry st did)); [split; reflexivity|].
       split; [discriminate|]. destruct (en_doc (get_entry st did)); discriminate.
   Qed.
@@ -1410,7 +1411,7 @@ Section DidAccept.
     unfold verify_ownership in V. destruct (vm_from stored (doc_auth stored) vmid) as [vm|]; [|inversion V; subst; discriminate H].
     destruct (negb (es256k (vm_type vm))); [inversion V; subst; discriminate H|].
     destruct (b58key (vm_pubkey58 vm)); [|inversion V; subst; discriminate H].
-    destruct (verify _ _ sig); inversion V; subst; discriminate H.
+    destruct (verify _ _ sig && _); inversion V; subst; discriminate H.
   Qed.
 
   (** ** user-facing corollaries *)
